@@ -87,3 +87,49 @@ Proof.
   - split; [vm_compute; reflexivity|]. split; [vm_compute; reflexivity|].
     intros m' H. vm_compute in H. inversion H; subst m'. vm_compute. discriminate.
 Qed.
+
+(** What the side condition excludes is really layout-sensitive: a Greedy [AnyNumberOf] used as an
+    alternative of a [OneOf] that is tried at the start of a gap (the alternatives start with an
+    Indent meta, so they have no first-token hint and are not pruned there).  Its match opens with an
+    unparsable section that starts *after* the gap, the other alternative's match starts *at* the
+    gap, and [longest_match] compares their lengths: with two gap tokens (whitespace, newline) the
+    [Sequence] wins and the text parses cleanly, with one the unparsable section wins.  Only the
+    length of a whitespace run differs between the two lists.  The graph is the dump of
+      Sequence(StringParser a,
+               one_of(AnyNumberOf(Sequence(Indent, StringParser zzz)){terminators [;], Greedy}, Sequence(Indent, StringParser b)),
+               AnyNumberOf(StringParser ",", StringParser ";")){allow_gaps = false}
+    and the token lists are [a \n b,;] and [a b,;]; crates/lib/tests/layout_witness.rs replays it on the real engine. *)
+Definition g2_nodes : list (N * ninfo) := [
+  (1, toy_info (GString 100 10) (Some ([100],[],true)) 1);                        (* a *)
+  (2, toy_info (GString 101 10) (Some ([101],[],true)) 2);                        (* b *)
+  (3, toy_info (GString 102 11) (Some ([102],[],false)) 3);                       (* , *)
+  (4, toy_info (GString 103 12) (Some ([103],[],false)) 4);                       (* ; *)
+  (5, toy_info (GString 999 10) (Some ([999],[],true)) 5);                        (* zzz: not in the text *)
+  (6, mkInfo (GMeta 5) (Some true) None (Some 6));                                (* Indent *)
+  (7, toy_info (GSeq (mkSeq [1;10;13] Strict false [])) (Some ([100],[],true)) 7);
+  (10, toy_info (GAny (mkAny [11;12] None [] false (Some 1) 1 None true Strict)) None 10);     (* one_of *)
+  (11, toy_info (GAny (mkAny [14] None [4] false None 0 None true Greedy)) None 11);          (* Greedy AnyNumberOf *)
+  (12, toy_info (GSeq (mkSeq [6;2] Strict true [])) None 12);
+  (13, toy_info (GAny (mkAny [3;4] None [] false None 0 None true Strict)) (Some ([102;103],[],false)) 13);
+  (14, toy_info (GSeq (mkSeq [6;5] Strict true [])) None 14);
+  (99, toy_info GNonCode None 99)].
+Definition g2 : grammar := mkGrammar (nodes_of_list g2_nodes) [] [] (Some 7) 1 2 9 0 5 6 7 99.
+Definition g2_tok (u : N) : ptok := mkPtok true false 20 [20] u u (Some u).
+Definition g2_l : list ptok := [g2_tok 100; tW; tN; g2_tok 101; g2_tok 102; g2_tok 103].
+Definition g2_l' : list ptok := [g2_tok 100; tW; g2_tok 101; g2_tok 102; g2_tok 103].
+
+Lemma rx_compat_nil bs : rx_compat bs [] [].
+Proof. split; [|split]; intros; reflexivity. Qed.
+
+Theorem layout_greedy_option_sensitive :
+  exists g l l' fuel m,
+    layout_related_b g l l' = true
+    /\ parse_root g (toks_of_list l) [] fuel (cstart l) (cend l) = ROk m /\ clean_b g m = true
+    /\ (forall m', parse_root g (toks_of_list l') [] fuel (cstart l') (cend l') = ROk m' -> clean_b g m' = false)
+    /\ gap_safe_b g = false.
+Proof.
+  exists g2, g2_l, g2_l', 50%nat.
+  eexists. split; [vm_compute; reflexivity|]. split; [vm_compute; reflexivity|]. split; [vm_compute; reflexivity|].
+  split; [|vm_compute; reflexivity].
+  intros m' H. vm_compute in H. inversion H; subst m'. vm_compute. reflexivity.
+Qed.
